@@ -144,4 +144,33 @@ def packagingOrder (bps : List Located) (inv : String) : Except ExecErr (List St
     | .error r => .error (.unknownRoot r)
     | .ok out => if out.isEmpty then .error .noBuildpacksFound else .ok (out.map (fun i => g.ids.getD i ""))
 
+/-! ### `libcnb-package/src/lib.rs` `find_buildpack_dirs`: which directories become nodes
+
+`ignore::Walk` (links are not followed while descending) yields every entry below the start directory;
+`find_buildpack_dirs` keeps an entry when `entry.path().is_dir()` — which resolves the entry itself, through any
+chain of links — and `buildpack.toml` exists inside. So the way the *entry* comes to be a directory does not matter;
+what lies below an *intermediate* directory that is a link is never visited. -/
+
+/-- how the directory entry of a buildpack comes to be a directory -/
+inductive Reach where
+  /-- a real directory -/
+  | dir
+  /-- a symbolic link (or a chain of `hops + 1` links) ending in a directory outside the walked tree -/
+  | link (hops : Nat)
+  /-- a real directory below an intermediate directory that is a link: not visited, not part of the workspace -/
+  | viaLinkedDir
+deriving Repr, DecidableEq
+
+structure Placed where
+  node : Node
+  reach : Reach
+deriving Repr, DecidableEq
+
+def Reach.visited : Reach → Bool
+  | .viaLinkedDir => false
+  | _ => true
+
+/-- the node list handed to `create_dependency_graph` (`ps` in directory-walk order) -/
+def discover (ps : List Placed) : List Node := (ps.filter (fun p => p.reach.visited)).map (·.node)
+
 end CnbVerif.DepGraph
